@@ -382,3 +382,84 @@ def import_rules(ck, module, mapping):
                     if f.rule == o["rule"] and f.construct == o["construct"]:
                         path = f.path
                 ck.bad(mapping[o["rule"]], o["construct"], o["fact"], o["loc"], path)
+
+
+# ---------------------------------------------------------------------------
+# Fault construction sites of the server module, seen through one level of helper functions
+# ---------------------------------------------------------------------------
+class FaultSite(object):
+    """A place where the server decides to answer with an error.  Normally the Fault(...) call itself; when the
+    call sits in a helper (a server-module function whose parameters feed the Fault and which returns it), each
+    call site of the helper is the site and the helper's parameters are substituted by the caller's arguments."""
+
+    def __init__(self, prog, fi, node, call, fault_fi, fault_node, fault_call, binding):
+        self.prog = prog
+        self.fi, self.node, self.call = fi, node, call                      # where the decision is taken (caller)
+        self.fault_fi, self.fault_node, self.fault_call = fault_fi, fault_node, fault_call
+        self.binding = binding                                              # helper param -> caller arg expr (or None)
+        self.via_helper = fault_fi is not fi
+
+    def arg(self, name, pos):
+        """(function, node, expr) where the Fault argument `name` is to be evaluated; expr None if absent"""
+        e = kwarg(self.fault_call, name, pos)
+        if e is None:
+            return (self.fault_fi, self.fault_node, None)
+        if self.via_helper and isinstance(e, ast.Name) and e.id in self.binding:
+            return (self.fi, self.node, self.binding[e.id])
+        return (self.fault_fi, self.fault_node, e)
+
+    def origin(self, name, pos):
+        f, n, e = self.arg(name, pos)
+        if e is None:
+            return None
+        return prov.origin(cfg_of(f), n, e)
+
+    def expr(self, name, pos):
+        return self.arg(name, pos)[2]
+
+    def code(self):
+        f, n, e = self.arg("code", 0)
+        if e is None:
+            return None
+        try:
+            v = self.prog.const(f.module, e)
+        except AnalysisError:
+            return None
+        return v if isinstance(v, int) and not isinstance(v, bool) else None
+
+
+def fault_sites(prog):
+    out = []
+    server_funcs = prog.module_funcs(SRV)
+    for fi in server_funcs:
+        sites = q.call_sites(prog, fi, lambda r, c: r == "class:jsonrpc.Fault")
+        if not sites:
+            continue
+        g = cfg_of(fi)
+        for (n, c) in sites:
+            helper_callers = None
+            # a helper: every Fault argument that is a Name is one of its own parameters, and the Fault is returned
+            names = [e for e in list(c.args) + [k.value for k in c.keywords] if isinstance(e, ast.Name)]
+            returned = n.kind == "return" or any(
+                r.kind == "return" and r.ast is not None and isinstance(r.ast.value, ast.Name) and isinstance(n.ast, ast.Assign)
+                and isinstance(n.ast.targets[0], ast.Name) and r.ast.value.id == n.ast.targets[0].id for r in g.live_nodes())
+            is_helper = (fi.cls is None or fi.name.startswith("_")) and fi.name not in (
+                "validate_request", "_unmarshaled_dispatch", "_marshaled_dispatch", "_marshaled_single_dispatch", "_dispatch", "do_POST") \
+                and returned and names and all(prov.origin(g, n, e) == ("param", e.id) for e in names)
+            if is_helper:
+                callers = q.all_call_sites(prog, lambda r, cc: isinstance(r, FuncInfo) and r.fq == fi.fq, modules=(SRV,))
+                if callers:
+                    helper_callers = callers
+            if helper_callers:
+                params = [p for p in fi.params if p != "self"]
+                for (f2, n2, c2) in helper_callers:
+                    binding = {}
+                    for i, a in enumerate(c2.args):
+                        if i < len(params):
+                            binding[params[i]] = a
+                    for k in c2.keywords:
+                        binding[k.arg] = k.value
+                    out.append(FaultSite(prog, f2, n2, c2, fi, n, c, binding))
+            else:
+                out.append(FaultSite(prog, fi, n, c, fi, n, c, {}))
+    return out
